@@ -22,6 +22,16 @@ C08.ctor    NODATA and NXDOMAIN answers ask for the SOA, data / CNAME /
             referral answers do not; NXDOMAIN carries RCODE NXDOMAIN, the
             others NOERROR; a referral is not authoritative; into_answer adds
             the apex SOA exactly when asked.
+C08.auth    Answer::to_message writes every part of the authority section
+            (SOA, NS, DS) that is present, independently of the others, and
+            both parts of the additional section: a referral for a signed
+            delegation carries NS *and* DS.
+C08.nx      the predicate the write path sets the NXDOMAIN marker from,
+            NodeRrsets::is_empty(version), is "no RRset is present at that
+            version": it answers false only under a witnessed present RRset
+            and true only when none was seen (quantifier shape decided for
+            loops and for any/all/find with is_some/is_none; other shapes are
+            reported undecided, not as violations).
 """
 import re
 
@@ -47,6 +57,8 @@ def run(ctx):
     rule_wild(ctx, F)
     rule_rrsets(ctx, F)
     rule_ctor(ctx, F)
+    rule_auth(ctx, F)
+    rule_nx(ctx, F)
     # the answer depends on the current records only if the versioned containers mask, restore and roll back correctly
     import c09
     c09.rule_ver(ctx, F)
@@ -286,3 +298,163 @@ def rule_ctor(ctx, F):
         ok = any(show(deep_strip(b.term_of_operand(t["args"][1]))).endswith(".authoritative") for t in sa)
         ctx.ob(R, b, "the AA flag is the answer's own authoritative flag", ok,
                "into_answer does not pass self.authoritative to set_authoritative", nontrivial=False)
+
+
+# ---------------------------------------------------------------------------
+# Answer::to_message: the parts of the authority section are independent
+# ---------------------------------------------------------------------------
+
+def rule_auth(ctx, F):
+    R = "C08.auth"
+    ctx.floor(R, 5)
+    bs = [b for p, b in F.bodies.items() if re.match(r"^zonetree::answer::Answer::to_message(::<.*>)?$", p)]
+    if not ctx.anchor(R, "Answer::to_message", len(bs) == 1):
+        return
+    b = bs[0]
+    adt = F.adts.get("zonetree::answer::AnswerAuthority")
+    if not ctx.anchor(R, "struct AnswerAuthority", adt is not None):
+        return
+    bf = BranchFacts(b, F)
+    tests = {}      # field -> (switch, present label)
+    for sw in sorted(b.reachable_blocks()):
+        if b.blocks[sw]["t"]["k"] != "switch":
+            continue
+        for lab, (tt, v) in bf.edge_facts(sw).items():
+            if v != ("variant", "Some"):
+                continue
+            s = show(deep_strip(tt))
+            m = re.search(r"\.authority\b.*\.(\w+)\)?$", s)
+            if m and "next(" not in s:
+                tests.setdefault(m.group(1), (sw, lab))
+    fields = sorted(tests)
+    ctx.ob(R, b, "the authority parts tested", {"soa", "ns", "ds"} <= set(fields),
+           "Answer::to_message no longer tests all of soa / ns / ds of the AnswerAuthority (found: %s)" % fields)
+    for f in fields:
+        sw, lab = tests[f]
+        r = b.reach_from(b.edge_target(sw, lab))
+        pushes = [x for x in r if b.blocks[x]["t"]["k"] == "call" and re.search(r"AuthorityBuilder::<.*>::push", b.blocks[x]["t"]["fn"] or "")]
+        ctx.ob(R, b, "%s, when present, is pushed into the authority section" % f, bool(pushes),
+               "no AuthorityBuilder::push is reached when authority.%s is present" % f)
+        for g in fields:
+            if g == f:
+                continue
+            gsw, _ = tests[g]
+            if sw not in b.reach_from(gsw) or gsw == sw:
+                continue
+            miss = [l for s_, l in b.succs(gsw) if sw not in b.reach_from(s_) and s_ != sw
+                    and not (bf.edge_facts(gsw).get(l, (None, None))[1] or ("",))[0] == "notvariant"]
+            ctx.ob(R, b, "%s is written whether or not %s is present" % (f, g), not miss,
+                   "Answer::to_message looks at authority.%s only on one outcome of the test of authority.%s: "
+                   "a referral for a signed delegation (NS and DS both present) loses one of the two RRsets" % (f, g),
+                   b.where(sw))
+
+
+# ---------------------------------------------------------------------------
+# NodeRrsets::is_empty: the predicate behind the NXDOMAIN marker
+# ---------------------------------------------------------------------------
+
+def _presence(t):
+    """+1 if the bool term means "an RRset is present at the version", -1 for "absent", 0 if unrelated"""
+    t = deep_strip(t)
+    neg = 1
+    while t[0] == "un" and t[1] == "Not":
+        neg = -neg
+        t = deep_strip(t[2])
+    if t[0] == "call" and t[1] and t[3]:
+        last = t[1].split("::")[-1]
+        inner = show(deep_strip(t[3][0]))
+        if last in ("is_some", "is_none") and re.search(r"NodeRrset::get\(", inner):
+            return neg * (1 if last == "is_some" else -1)
+    return 0
+
+
+def rule_nx(ctx, F):
+    R = "C08.nx"
+    ctx.floor(R, 2)
+    b = _one(F, r"^zonetree::in_memory::nodes::NodeRrsets::is_empty$")
+    if not ctx.anchor(R, "NodeRrsets::is_empty", b):
+        return
+    callers = [p for p, c in F.bodies.items() if "check_nx_domain" in p and any((t["fn"] or "").endswith("NodeRrsets::is_empty") for _, t in c.calls())]
+    ctx.ob(R, b, "check_nx_domain decides the NXDOMAIN marker with is_empty", bool(callers),
+           "WriteNode::check_nx_domain no longer consults NodeRrsets::is_empty", nontrivial=False)
+    n_true = n_false = 0
+    undec = False
+    for bi, si, kind, term in return_assignments(b):
+        if term is None and kind.startswith("call:"):
+            term = b._term_of_def(("call", bi, b.blocks[bi]["t"]), 0, frozenset())
+        facts = facts_at(b, bi, F)
+        pres = [(_presence(tt) * (1 if v else -1)) for tt, v, _ in facts if isinstance(v, bool) and _presence(tt)]
+        witnessed = any(x > 0 for x in pres)
+        if kind == "false":
+            n_false += 1
+            ctx.ob(R, b, "`false` #%d is returned under a present RRset" % n_false, witnessed,
+                   "NodeRrsets::is_empty returns false (not empty) on a path where no RRset was seen to be present at the "
+                   "version: a name without data at this version keeps answering NOERROR / loses its NXDOMAIN marker",
+                   b.where(bi))
+        elif kind == "true":
+            n_true += 1
+            ctx.ob(R, b, "`true` #%d is not returned under a present RRset" % n_true, not witnessed,
+                   "NodeRrsets::is_empty returns true (empty) on a path where an RRset was just found present at the "
+                   "version: a name that owns data gets the NXDOMAIN marker", b.where(bi))
+        else:
+            # iterator-combinator form: [!] values().any|all|find(closure)
+            verdict = _combinator_verdict(b, F, term)
+            if verdict is None:
+                undec = True
+                ctx.undecided_item(R, "NodeRrsets::is_empty", "return value of an unrecognised shape: %s" % (show(term)[:120] if term else kind))
+                continue
+            n_true += 1
+            n_false += 1
+            ctx.ob(R, b, "combinator form means `no RRset is present`", verdict is True,
+                   "NodeRrsets::is_empty computes %s, which is not `no RRset is present at the version`: a name that still "
+                   "owns an RRset gets the NXDOMAIN marker (or an empty one keeps answering NOERROR)" % verdict, b.where(bi))
+    if undec:
+        return
+    ctx.ob(R, b, "both answers are possible", n_true > 0 and n_false > 0,
+           "NodeRrsets::is_empty can no longer return both true and false", nontrivial=False)
+
+
+def _combinator_verdict(b, F, term):
+    """True if the term is a spelling of `forall v: not present(v)`; a description of what it computes if it is a
+    different quantifier; None if not understood."""
+    if term is None:
+        return None
+    t = deep_strip(term)
+    neg = False
+    while t[0] == "un" and t[1] == "Not":
+        neg = not neg
+        t = deep_strip(t[2])
+    post = None
+    if t[0] == "call" and t[1] and t[1].split("::")[-1] in ("is_none", "is_some") and t[3]:
+        post = t[1].split("::")[-1]
+        t = deep_strip(t[3][0])
+    if t[0] != "call" or not t[1]:
+        return None
+    comb = t[1].split("::")[-1]
+    if comb not in ("any", "all", "find", "position"):
+        return None
+    if "values(" not in show(t) and "iter(" not in show(t):
+        return None
+    pol = None
+    for _bi, cb, _caps in closures_created_in(F, b):
+        for bi, si, kind, ct in return_assignments(cb):
+            if ct is None and kind.startswith("call:"):
+                ct = cb._term_of_def(("call", bi, cb.blocks[bi]["t"]), 0, frozenset())
+            if ct is not None and _presence(ct):
+                pol = _presence(ct)
+    if pol is None:
+        return None
+    if comb in ("find", "position"):
+        if post is None:
+            return None
+        # find(present).is_none()  ==  not any(present)
+        exists = (post == "is_some")
+        val = ("any", pol, exists != neg and True)
+        some_present = pol > 0
+        is_true_when_no_present = (post == "is_none") != neg
+        return True if (some_present and is_true_when_no_present) else "`%s%s(%s).%s()`" % ("!" if neg else "", comb, "present" if pol > 0 else "absent", post)
+    if comb == "any":
+        ok = (pol > 0 and neg)            # !any(present)
+    else:
+        ok = (pol < 0 and not neg)        # all(absent)
+    return True if ok else "`%s%s(|v| %s)`" % ("!" if neg else "", comb, "v is present" if pol > 0 else "v is absent")
